@@ -49,11 +49,7 @@ def classify_exception(e):
     name = type(e).__name__
     if isinstance(e, UnicodeDecodeError):
         return "decode"
-    mod = type(e).__module__ or ""
-    if "antlr4" in mod or name in ("CMakeSyntaxError", "SyntaxError", "CMakeLexerError",
-                                   "CMakeParseError"):
-        return "syntax"
-    return "crash"
+    return "error"
 
 
 _scratch = None
